@@ -174,6 +174,10 @@ impl StorageEngine {
             || name.contains('/')
             || name.contains('\\')
             || name.contains('\0')
+            // ':' separates the knowledge graph from the relation in persist shard names
+            // ("{kg}:{relation}"): a name containing it would be rediscovered as its prefix
+            // at start-up, and dropping/saving the prefix KG would match its shards.
+            || name.contains(':')
             || name.contains("..")
             || name == "."
         {
